@@ -6,10 +6,29 @@ from .oracle import report as R
 from .runner import Inconclusive
 
 
+def _vtable_without_key_function(m):
+    """A class that has a vtable (virtual base somewhere up the hierarchy, or inherited virtual functions) but declares no
+    virtual member function of its own has no key function."""
+    idx = M.type_index(m)
+
+    def has_vtable(t):
+        return any(me.get("virtual") for me in t.get("methods", [])) or \
+            any(b.get("virtual") or has_vtable(idx[b["name"]]) for b in t.get("bases", []))
+    for t in m["types"]:
+        if t["kind"] in ("class", "struct") and has_vtable(t) and not any(
+                me.get("virtual") and not me.get("inline") for me in t.get("methods", [])):
+            return True
+    return False
+
+
 def build_pair(cx, m1, m2, cfg, full_debug=True, names=("v1", "v2"), **kw):
     cfg = dict(cfg)
     if full_debug and cfg.get("cc") == "clang":
         cfg["cflags"] = list(cfg.get("cflags", [])) + ["-fstandalone-debug"]
+    elif full_debug and m1.get("lang") == "cxx" and (_vtable_without_key_function(m1) or _vtable_without_key_function(m2)):
+        # g++ describes a class with a vtable only where the vtable is emitted (and nowhere if nothing emits it);
+        # the oracle's model assumes every reachable type has a full DWARF definition
+        cfg["cflags"] = list(cfg.get("cflags", [])) + ["-femit-class-debug-always"]
     d = cx.dir()
     try:
         b1 = cbuild.compile_model(m1, cfg, os.path.join(d, names[0]), **kw)
